@@ -10,6 +10,7 @@ package file
 import (
 	"errors"
 	"io"
+	"path"
 )
 
 type verifFileMode uint32
@@ -276,4 +277,22 @@ func (f *verifFile) Truncate(size int64) error {
 	f.data.v = v[:size]
 	vfs.journal = append(vfs.journal, verifEffect{kind: 't', file: f.data, off: int(size)})
 	return nil
+}
+
+// verifGlob stands in for filepath.Glob over the in-memory files.
+func verifGlob(pattern string) ([]string, error) {
+	var out []string
+	for _, f := range vfs.files {
+		if !f.exists {
+			continue
+		}
+		ok, err := path.Match(pattern, f.name)
+		if err != nil {
+			return nil, err
+		}
+		if ok {
+			out = append(out, f.name)
+		}
+	}
+	return out, nil
 }
